@@ -34,6 +34,8 @@ func init() {
 			{ID: "C07.R17", Floor: 2, Run: handleParamsReadOnly, Text: "registered-filter handles are read-only (= C10.R13)"},
 			{ID: "C07.R18", Floor: 2, Run: growKeepsLength, Text: "growth keeps the length: in `new := make(T, L, C); copy(new, old)` L is len(old); a truncated id pool issues a filter id twice"},
 			{ID: "C07.R19", Floor: 10, Run: freshRelationFilterPerCall, Text: "generic FilterN.Filter hands out a relation filter of its own for a per-call target (= C18.R22): a registered relation filter keeps its target"},
+			{ID: "C07.R20", Floor: 4, Run: noRelationRegionIgnoresRelationFilter, Text: "tables without a relation are selected by the component filter alone (= C03.R21): the incremental cache update and the uncached selectors agree"},
+			{ID: "C07.R21", Floor: 2, Run: indicesConsultedPerEntry, Text: "the lazily built position index is consulted per entry: a lookup or delete in cacheEntry.Indices outside the building function lies where that entry's Indices was compared with nil on the path"},
 		},
 	})
 }
